@@ -174,7 +174,7 @@ func evalSpecFiltered(c *Ctx, p *Prog, s *specFile, rConst, rCall, rTerm string,
 		switch {
 		case len(t.errs) > 0:
 			ob.At(p.InstrPos(succ[0])).Undecide("cannot reconstruct the layout: %s", strings.Join(t.errs, "; "))
-		case got != k.Term:
+		case !termEq(got, k.Term):
 			ob.At(p.InstrPos(succ[0])).Violate("layout differs from the wire format:\n      got:  %s\n      spec: %s", got, k.Term)
 		default:
 			ob.At(p.InstrPos(succ[0])).HoldNT("%s", got)
@@ -629,7 +629,7 @@ func c06Length(c *Ctx, p *Prog) {
 							}
 						}
 						// the 2-byte array filled by io.ReadFull from the frame buffer
-						for _, rf := range p.CallsIn(dec, "io.ReadFull") {
+						for _, rf := range p.ReadFullsIn(dec) {
 							if bufObjKey(rf.Common().Args[1]) == bufObjKey(sl) {
 								fromBuf = true
 							}
@@ -1044,7 +1044,7 @@ func c06Cert(c *Ctx, p *Prog) {
 	} else {
 		t.at = last.Instr
 		got := t.Term(last.Val)
-		if got != "cat($0.nodeID,$0.identityKey.public)" {
+		if !termEq(got, "cat($0.nodeID,$0.identityKey.public)") {
 			bad = "serverCertFromState builds raw as " + got + ", expected nodeID | identityKey.public"
 		}
 	}
